@@ -277,8 +277,27 @@ def execute_conc(init_table, ops, family="ember", universe=("g1", "g2", "g3")):
                 settle()
                 trace.append({"a": "End", "id": cid, "ans": "ok", "ret": "ok", "wrote": [], "tbl": ncp.view()})
             continue
+        elif op[0] == "Cancel":
+            # the caller gives up while its write has not reached the NCP yet: the write must never happen
+            cid = op[1]
+            if cid not in tasks or tasks[cid].done():
+                continue
+            tasks[cid].cancel()
+            settle()
+            gone = [p_ for p_ in ncp.pending if p_[0].cancelled()]
+            ncp.pending = [p_ for p_ in ncp.pending if not p_[0].cancelled()]
+            if gone and cid in order:
+                order.remove(cid)
+            ev = {"a": "Cancel", "id": cid, "ret": "cancelled" if tasks[cid].cancelled() else "exception:notcancelled", "wrote": [], "tbl": ncp.view()}
+            trace.append(ev)
+            continue
         elif op[0] == "End":
             if not ncp.pending:
+                continue
+            if not order:
+                # a write nobody stands for any more (its caller was cancelled) reaches the NCP after all
+                ncp.answer_oldest(op[1])
+                settle()
                 continue
             cid = order.pop(0)
             ncp.answer_oldest(op[1])
@@ -314,6 +333,11 @@ def conc_schedules(quick):
                 # both begun before either answer; and the second begun after the first's answer (sequential control)
                 out.append([a, b, ("End", a1), ("Probe",), ("End", a2), ("Probe",), ("SubBegin", 3, "g3"), ("End", "ok"), ("Probe",)])
                 out.append([a, ("End", a1), b, ("End", a2), ("Probe",)])
+    # a caller cancelled while its write is still queued (not yet with the NCP): nothing of it may happen later
+    for a, b in calls2:
+        for who in (1, 2):
+            for a1 in ANSWERS:
+                out.append([a, b, ("Cancel", who), ("End", a1), ("End", "ok"), ("Probe",), ("SubBegin", 3, "g3"), ("End", "ok"), ("Probe",)])
     for a1 in ANSWERS:
         for a2 in (("ok", "timeout") if quick else ANSWERS):
             for a3 in (("ok", "reject") if quick else ANSWERS):
